@@ -2877,10 +2877,6 @@ Lemma impl_ConfigParam13_is_spec : impl_ConfigParam13 = compile spec_ConfigParam
 Proof. vm_compute. reflexivity. Qed.
 Lemma impl_ConfigParam14_is_spec : impl_ConfigParam14 = compile spec_ConfigParam14.
 Proof. vm_compute. reflexivity. Qed.
-Lemma impl_ConfigParam20_is_spec : impl_ConfigParam20 = compile spec_ConfigParam20.
-Proof. vm_compute. reflexivity. Qed.
-Lemma impl_ConfigParam21_is_spec : impl_ConfigParam21 = compile spec_ConfigParam21.
-Proof. vm_compute. reflexivity. Qed.
 Lemma impl_ConfigParam22_is_spec : impl_ConfigParam22 = compile spec_ConfigParam22.
 Proof. vm_compute. reflexivity. Qed.
 Lemma impl_ConfigParam23_is_spec : impl_ConfigParam23 = compile spec_ConfigParam23.
@@ -2891,8 +2887,6 @@ Lemma impl_ConfigParam25_is_spec : impl_ConfigParam25 = compile spec_ConfigParam
 Proof. vm_compute. reflexivity. Qed.
 Lemma impl_ConfigParam28_is_spec : impl_ConfigParam28 = compile spec_ConfigParam28.
 Proof. vm_compute. reflexivity. Qed.
-Lemma impl_ConfigParam29_is_spec : impl_ConfigParam29 = compile spec_ConfigParam29.
-Proof. vm_compute. reflexivity. Qed.
 Lemma impl_ConfigParam31_is_spec : impl_ConfigParam31 = compile spec_ConfigParam31.
 Proof. vm_compute. reflexivity. Qed.
 Lemma impl_ConfigParam44_is_spec : impl_ConfigParam44 = compile spec_ConfigParam44.
@@ -2902,12 +2896,6 @@ Proof. vm_compute. reflexivity. Qed.
 Lemma impl_ConfigParam72_is_spec : impl_ConfigParam72 = compile spec_ConfigParam72.
 Proof. vm_compute. reflexivity. Qed.
 Lemma impl_ConfigParam73_is_spec : impl_ConfigParam73 = compile spec_ConfigParam73.
-Proof. vm_compute. reflexivity. Qed.
-Lemma impl_ConfigParam79_is_spec : impl_ConfigParam79 = compile spec_ConfigParam79.
-Proof. vm_compute. reflexivity. Qed.
-Lemma impl_ConfigParam81_is_spec : impl_ConfigParam81 = compile spec_ConfigParam81.
-Proof. vm_compute. reflexivity. Qed.
-Lemma impl_ConfigParam82_is_spec : impl_ConfigParam82 = compile spec_ConfigParam82.
 Proof. vm_compute. reflexivity. Qed.
 Lemma impl_SuspendedAddressList_is_spec : impl_SuspendedAddressList = compile spec_SuspendedAddressList.
 Proof. vm_compute. reflexivity. Qed.
@@ -2955,6 +2943,13 @@ Lemma impl_WorkchainFormat_0_differs : impl_WorkchainFormat_0 <> compile spec_Wo
 Proof. vm_compute. discriminate. Qed.
 (* JettonBridgeParams.deserialize does not read external_chain_address:bits256 of jetton_bridge_params_v1 *)
 Lemma impl_JettonBridgeParams_differs : impl_JettonBridgeParams <> compile spec_JettonBridgeParams.
+Proof. vm_compute. intros H. inversion H. Qed.
+(* ... and so do the classes that inherit its deserialize *)
+Lemma impl_ConfigParam79_differs : impl_ConfigParam79 <> compile spec_ConfigParam79.
+Proof. vm_compute. intros H. inversion H. Qed.
+Lemma impl_ConfigParam81_differs : impl_ConfigParam81 <> compile spec_ConfigParam81.
+Proof. vm_compute. intros H. inversion H. Qed.
+Lemma impl_ConfigParam82_differs : impl_ConfigParam82 <> compile spec_ConfigParam82.
 Proof. vm_compute. intros H. inversion H. Qed.
 
 Lemma spec_table_wf : wf_table spec_table = true.
